@@ -16,6 +16,7 @@ import (
 	"strings"
 
 	"github.com/cocosip/go-dicom-codecs/jpeg2000"
+	"github.com/cocosip/go-dicom-codecs/jpeg2000/codestream"
 	"github.com/cocosip/go-dicom-codecs/jpeg2000/t1"
 	"github.com/cocosip/go-dicom-codecs/jpeg2000/t2"
 
@@ -228,6 +229,14 @@ func c04GlueStream(c *hx.Ctx, k c04Cfg, kind int) {
 	if cs == nil {
 		return
 	}
+	// the parser's walk: tile data of tile 0 (codestream/parser.go)
+	c.Case("j2k-unframe "+c04GlueHex(cs), c04Guarded(func() string {
+		st, e := codestream.NewParser(cs).Parse()
+		if e != nil || len(st.Tiles) != 1 {
+			return "err"
+		}
+		return "ok " + c04GlueHex(st.Tiles[0].Data)
+	}))
 	var pkts [][]t2.Packet
 	var err error
 	if pn, _ := hx.Guard(func() { pkts, err = jpeg2000.VerifTilePacketsC16(k.params(), pix) }); pn || err != nil || len(pkts) != 1 {
